@@ -42,26 +42,27 @@ func ruleNameAllocators(c *Ctx, r *Repo, r1, r2, r3 string) {
 	} else {
 		c.Func(funcKey(tp, fd))
 		var loop *ast.ForStmt
-		for _, s := range fd.Body.List {
-			if fs, ok := s.(*ast.ForStmt); ok {
+		ast.Inspect(fd.Body, func(n ast.Node) bool {
+			if fs, ok := n.(*ast.ForStmt); ok && loop == nil {
 				loop = fs
 			}
-		}
+			return loop == nil
+		})
+		// what the function returns after the loop (when the loop is left by break)
 		var sugObj types.Object
-		okRet := false
 		if l := len(fd.Body.List); l > 0 {
 			if rs, ok := fd.Body.List[l-1].(*ast.ReturnStmt); ok && len(rs.Results) == 1 {
 				if id, ok := rs.Results[0].(*ast.Ident); ok {
 					sugObj = info.Uses[id]
-					okRet = true
 				}
 			}
 		}
-		if loop == nil || !okRet || loop.Cond != nil {
-			c.Fail(r1, "SuggestName|shape", r.Pos(fd.Pos()), "SuggestName is not a candidate loop followed by 'return <suggestion>'")
+		if loop == nil || loop.Cond != nil {
+			c.Fail(r1, "SuggestName|shape", r.Pos(fd.Pos()), "SuggestName is not an unbounded candidate loop")
 		} else {
 			d := newDT(info)
-			start := seedEnv(d, fd)
+			start := d.envBefore(seedEnv(d, fd), fd.Body.List, loop)
+			d.loopUnknown(start, loop)
 			var ctr types.Object
 			if as, ok := loop.Init.(*ast.AssignStmt); ok {
 				ctr = info.Defs[as.Lhs[0].(*ast.Ident)]
@@ -71,20 +72,39 @@ func ruleNameAllocators(c *Ctx, r *Repo, r1, r2, r3 string) {
 			d.stmts(start, loop.Body.List, func(p *dtPath) { d.finish(p, "end") })
 			okLeave, okCont := false, true
 			cands := map[string]bool{}
+			const ne = "RECV.NameExists<(template.MethodScope).NameExists>("
 			for _, p := range d.paths {
-				cur := p.env[sugObj]
-				cands[cur] = true
-				ex, has := p.atom("RECV.NameExists<(template.MethodScope).NameExists>(" + cur + ")")
+				// the candidates this round tested
+				tested := map[string]bool{}
+				for _, a := range p.Atoms {
+					if strings.HasPrefix(a.Expr, ne) && strings.HasSuffix(a.Expr, ")") {
+						cand := a.Expr[len(ne) : len(a.Expr)-1]
+						tested[cand] = a.Val
+						cands[cand] = true
+					}
+				}
 				switch p.Exit {
-				case "break":
-					if has && !ex {
+				case "break", "return":
+					cur := ""
+					if p.Exit == "break" && sugObj != nil {
+						cur = p.env[sugObj]
+					} else if p.Exit == "return" && len(p.Ret) == 1 {
+						cur = p.Ret[0]
+					}
+					if ex, has := tested[cur]; cur != "" && has && !ex {
 						okLeave = true
 					} else {
 						okCont = false
 						c.Fail(r1, "SuggestName|commit-unchecked", r.Pos(p.RetPos), fmt.Sprintf("the candidate loop is left with suggestion = %s without NameExists(%s) having just returned false: %s", cur, cur, p.String()))
 					}
 				case "continue", "end":
-					if !(has && ex) {
+					free := len(tested) == 0
+					for _, ex := range tested {
+						if !ex {
+							free = true
+						}
+					}
+					if free {
 						okCont = false
 						c.Fail(r1, "SuggestName|skip-free-name", r.Pos(loop.Pos()), "a candidate that was not found taken is skipped, or the loop continues without testing: "+p.String())
 					}
@@ -260,7 +280,7 @@ func ruleAddImport(c *Ctx, r *Repo, rule string) {
 					c.Fail(rule, "addImport|nil-return", r.Pos(p.RetPos), "addImport returns nil (no import, empty qualifier) on a path other than 'destination package while in-package': "+p.String())
 				}
 			case p.Exit == "return":
-				if hasHit && hit && p.Ret[0] == "RECV.imports[ARG1.Path<(template.TypesPackage).Path>()]#0" {
+				if hasHit && hit && p.Ret[0] == "RECV.imports[ARG1.Path<(template.TypesPackage).Path>()]" {
 					okHit = true
 				} else {
 					c.Fail(rule, "addImport|cached-return", r.Pos(p.RetPos), "early return of something other than the package cached under the same path: "+p.String())
@@ -277,41 +297,87 @@ func ruleAddImport(c *Ctx, r *Repo, rule string) {
 		c.Fail(rule, "addImport|candidate-loop", r.Pos(fd.Pos()), "no qualifier search loop")
 		return
 	}
-	// the loop: conflict test on the candidate, alias assignment, break
+	// the loop: conflict test on the candidate, alias assignment, break.
+	// The candidate is the variable used as the key of the importQualifiers lookup inside the loop.
 	var cand types.Object
-	okConflict, okAlias, okNext := false, false, false
 	ast.Inspect(loop.Body, func(n ast.Node) bool {
-		ifs, ok := n.(*ast.IfStmt)
-		if !ok {
-			return true
-		}
-		if as, ok := ifs.Init.(*ast.AssignStmt); ok && len(as.Rhs) == 1 {
-			if ie, ok := as.Rhs[0].(*ast.IndexExpr); ok && strings.HasSuffix(types.ExprString(ie.X), ".importQualifiers") {
-				if id, ok := ie.Index.(*ast.Ident); ok {
+		if ie, ok := n.(*ast.IndexExpr); ok && cand == nil {
+			if se, ok := ast.Unparen(ie.X).(*ast.SelectorExpr); ok && se.Sel.Name == "importQualifiers" {
+				if id, ok := ast.Unparen(ie.Index).(*ast.Ident); ok {
 					cand = info.Uses[id]
-					okConflict = true
-					// body: cand = Sprintf("%s%d", imprt.Qualifier(), i); continue
-					for _, s := range ifs.Body.List {
-						if a2, ok := s.(*ast.AssignStmt); ok && len(a2.Lhs) == 1 {
-							if l, ok := a2.Lhs[0].(*ast.Ident); ok && info.Uses[l] == cand && strings.HasPrefix(types.ExprString(a2.Rhs[0]), `fmt.Sprintf("%s%d", `) {
-								okNext = true
-							}
-						}
-					}
-				}
-			}
-		}
-		if be, ok := ifs.Cond.(*ast.BinaryExpr); ok && be.Op == token.NEQ && ifs.Init == nil {
-			for _, s := range ifs.Body.List {
-				if a2, ok := s.(*ast.AssignStmt); ok && len(a2.Lhs) == 1 && strings.HasSuffix(types.ExprString(a2.Lhs[0]), ".Alias") {
-					if rv, ok := a2.Rhs[0].(*ast.Ident); ok && info.Uses[rv] == cand {
-						okAlias = true
-					}
 				}
 			}
 		}
 		return true
 	})
+	okConflict, okAlias, okNext := false, false, false
+	if cand != nil {
+		d := newDT(info)
+		before := d.envBefore(seedEnv(d, fd), fd.Body.List, loop)
+		q := before.env[cand] // the first candidate: the package's own qualifier
+		okFirst := strings.HasSuffix(q, ".Qualifier<(template.Package).Qualifier>()")
+		start := before.clone()
+		d.loopUnknown(start, loop)
+		start.env[cand] = "CAND"
+		if as, ok := loop.Init.(*ast.AssignStmt); ok && len(as.Lhs) == 1 {
+			start.env[info.Defs[as.Lhs[0].(*ast.Ident)]] = "I"
+		}
+		d.paths = nil
+		d.stmts(start, loop.Body.List, func(p *dtPath) { d.finish(p, "end") })
+		body := d.paths
+		okConflict, okNext = okFirst && len(body) > 0, okFirst
+		var leaving []*dtPath
+		for _, p := range body {
+			taken, tested := p.atom("RECV.importQualifiers[CAND]#ok")
+			switch p.Exit {
+			case "continue", "end":
+				// only a taken candidate is passed over, and the next one is <qualifier><counter>
+				if !(tested && taken) {
+					okConflict = false
+				}
+				if p.env[cand] != `fmt.Sprintf("%s%d", `+q+`, I)` {
+					okNext = false
+				}
+			case "break":
+				if !(tested && !taken) || p.env[cand] != "CAND" {
+					okConflict = false
+				}
+				leaving = append(leaving, p)
+			default:
+				okConflict = false
+			}
+		}
+		// continue the leaving paths through the statements after the loop: Alias = final candidate iff it differs
+		var post []ast.Stmt
+		if loopIdx >= 0 {
+			post = fd.Body.List[loopIdx+1:]
+		}
+		okAlias = len(leaving) > 0
+		for _, lp := range leaving {
+			d.paths = nil
+			cont := lp.clone()
+			d.stmts(cont, post, func(p *dtPath) { d.finish(p, "end") })
+			for _, p := range d.paths {
+				same, has := p.atom(q + " == CAND")
+				if !has {
+					same, has = p.atom("CAND == " + q)
+				}
+				sets := 0
+				for _, st := range p.Steps {
+					if strings.HasPrefix(st, "store ") && strings.Contains(st, ".Alias = ") {
+						if strings.HasSuffix(st, ".Alias = CAND") {
+							sets++
+						} else {
+							sets = -100
+						}
+					}
+				}
+				if !has || (same && sets != 0) || (!same && sets != 1) {
+					okAlias = false
+				}
+			}
+		}
+	}
 	c.Check(okConflict && okNext, rule, "addImport|conflict-test", r.Pos(loop.Pos()), "candidate tested against importQualifiers; taken => <qualifier><counter>", "the qualifier search does not test the current candidate against importQualifiers and move on to <qualifier><counter> when it is taken")
 	c.Check(okAlias, rule, "addImport|alias", r.Pos(loop.Pos()), "Alias = final candidate iff it differs from the package name", "the alias is not set to the final candidate when it differs from the package's own name")
 	// stores after the loop
